@@ -97,7 +97,13 @@ def case_run(case):
         after = (es.EquationString, es.Parser.Endogenous, es.Parser.Lagged, es.Parser.Decoration, list(es.Parser.InitialConditions.items()),
                  es.Parser.MaxTime, es.MaxIterations, es.Parser.Err_Tolerance, len(es.Parser.Exogenous))
         if before != after and out['viol'] is None:
-            out['viol'] = {'why': 'the search changed the initialised solver: %r -> %r' % (before, after), 'vals': None}
+            r, m = D.holds(z3.BoolVal(False))      # any values of this path
+            vals = {n: str(m.eval(v, model_completion=True)) for n, v in syms.items()} if m is not None else {n: '1' for n in syms}
+            for i, dv in enumerate(ds):
+                vals['D_%d' % i] = str(m.eval(dv, model_completion=True)) if m is not None else '1'
+            changed = [nm for nm, x, y in zip(('equation text', 'simultaneous equations', 'lagged', 'decorative', 'initial conditions', 'horizon', 'iteration cap',
+                                               'tolerance', 'number of exogenous series'), before, after) if x != y]
+            out['viol'] = {'why': 'the search (outcome %s) changed the solver it initialises: %s' % (o, ', '.join(changed)), 'vals': vals}
         exo_ok = [symx.lift(v) == dv for v, dv in zip(es.TimeSeries['D'], ds)] + [z3.BoolVal(len(es.TimeSeries['D']) == 4)]
         r, m = D.holds(z3.And(exo_ok))
         if r == 'sat' and out['viol'] is None:
@@ -185,11 +191,20 @@ path = [vals['D_%%d' %% i] for i in range(4)]
 es.Parser.Exogenous.append(('D', list(path)))
 es.ExtractVariableList(); es.SetInitialConditions()
 for n in k0: es.TimeSeries[n][0] = vals[n]
+import copy
+snap = lambda: (es.EquationString, copy.deepcopy(es.Parser.Endogenous), copy.deepcopy(es.Parser.Lagged), copy.deepcopy(es.Parser.Decoration),
+                list(es.Parser.InitialConditions.items()), es.Parser.MaxTime, es.MaxIterations, es.Parser.Err_Tolerance, len(es.Parser.Exogenous))
+before = snap()
 try:
     es.CalculateInitialSteadyState()
 except ValueError as e:
-    print('search refused:', repr(e)); sys.exit(0)
+    print('search refused:', repr(e))
+    if snap() != before:
+        print('... and left the solver changed:', before[5:], '->', snap()[5:]); sys.exit(1)
+    sys.exit(0)
 bad = False
+if snap() != before:
+    print('the search changed the solver it initialises:', before[5:], '->', snap()[5:]); bad = True
 if list(es.TimeSeries['D']) != path:
     print('the search changed the exogenous path:', es.TimeSeries['D'], 'was', path); bad = True
 x0 = {v: es.TimeSeries[v][0] for v in es.TimeSeries if v not in ('k', 't')}
@@ -242,7 +257,8 @@ def run(tier, seed):
             if o['viol']['vals'] is None:
                 chk.harness_errors.append(what + ': ' + o['viol']['why'])
             else:
-                chk.violation('accepted-not-steady:%s' % o['case'][0], what + ': ' + o['viol']['why'] + ' at %r' % (o['viol']['vals'],),
+                kind = 'search-changed-the-solver' if 'changed the solver' in o['viol']['why'] else ('exogenous-path-changed' if 'exogenous path' in o['viol']['why'] else 'accepted-not-steady')
+                chk.violation('%s:%s' % (kind, o['case'][0]), what + ': ' + o['viol']['why'] + ' at %r' % (o['viol']['vals'],),
                               REPLAY % dict(case=o['case'], vals=o['viol']['vals']))
         chk.sample({'harness': what, 'paths': o['paths'], 'forks': o['forks'], 'outcomes': o['outcomes'], 'exhaustive': o['exhaustive']}, cap=14)
     chk.witness(chk.counters.get('outcome:accepted', 0) > 0, 'some path accepts a steady state')
